@@ -28,6 +28,7 @@ import (
 
 const (
 	rcReqTimeout = 2500 * time.Millisecond
+	rcMsgTimeout = 4000 * time.Millisecond // differs from the request time-out on purpose
 	rcWait       = 1500 * time.Millisecond
 	rcShort      = 250 * time.Millisecond
 )
@@ -68,6 +69,8 @@ type rcSt struct {
 	RegOK   bool       `json:"regok"` // every Register seen so far carried a valid signature of the client key
 	Seen    []bool     `json:"seen"`  // the request of call k has reached the service
 	SameH   bool       `json:"sameh"` // both registered handlers have received the same sequence
+	Lat     []int      `json:"lat"`   // per call that timed out after its request was written: ms between the write and the time-out, else -1
+	RegNew  bool       `json:"regnew"` // every Register so far carried a connection hash not used before
 	Outputs string     `json:"outputs"`
 }
 type rcLine struct {
@@ -117,7 +120,13 @@ type rcH struct {
 	calls     []rcCall
 	seen      []bool // the request of call k has reached the service
 	buf       int    // messages waiting in the client's send buffer for the handshake
-	results   []chan [2]string
+	seenAt    []time.Time
+	doneAt    []time.Time
+	hashes    map[bitcoin.Hash32]bool
+	regNew    bool
+	lastAcc   *AcceptRegister // the valid accept of an earlier connection (for the replay forgery)
+	thisAcc   *AcceptRegister
+	results   []chan [3]string
 	outputs   string
 	mu        sync.Mutex
 }
@@ -155,7 +164,7 @@ func init() {
 }
 
 func newRC(t *testing.T, ctype ConnectionType, ncalls int) *rcH {
-	h := &rcH{t: t, ctype: ctype, conns: make(chan net.Conn, 10), in: make(chan *Message, 1000), regOK: true, h: &rcHandler{}, h2: &rcHandler{}}
+	h := &rcH{t: t, ctype: ctype, conns: make(chan net.Conn, 10), in: make(chan *Message, 1000), regOK: true, regNew: true, hashes: map[bitcoin.Hash32]bool{}, h: &rcHandler{}, h2: &rcHandler{}}
 	var err error
 	h.serverKey, _ = bitcoin.GenerateKey(bitcoin.MainNet)
 	h.otherKey, _ = bitcoin.GenerateKey(bitcoin.MainNet)
@@ -178,7 +187,7 @@ func newRC(t *testing.T, ctype ConnectionType, ncalls int) *rcH {
 	cfg.RequestTimeout = config.NewDuration(rcReqTimeout)
 	cfg.DialTimeout = config.NewDuration(time.Second)
 	cfg.HandshakeTimeout = config.NewDuration(20 * time.Second)
-	cfg.MessageChannelTimeout = config.NewDuration(3 * time.Second)
+	cfg.MessageChannelTimeout = config.NewDuration(rcMsgTimeout)
 	cfg.RetryError = config.NewDuration(10 * time.Minute)
 	h.c, err = NewRemoteClient(cfg)
 	if err != nil {
@@ -197,6 +206,8 @@ func newRC(t *testing.T, ctype ConnectionType, ncalls int) *rcH {
 	for i := 0; i < ncalls; i++ {
 		h.calls = append(h.calls, rcCall{St: "idle", RKey: -1})
 		h.seen = append(h.seen, false)
+		h.seenAt = append(h.seenAt, time.Time{})
+		h.doneAt = append(h.doneAt, time.Time{})
 		h.results = append(h.results, nil)
 	}
 	if !h.newConn() {
@@ -241,6 +252,13 @@ func (h *rcH) newConn() bool {
 			return true
 		}
 		h.reg = reg
+		if h.hashes[reg.Hash] {
+			h.regNew = false
+		}
+		h.hashes[reg.Hash] = true
+		if h.thisAcc != nil {
+			h.lastAcc, h.thisAcc = h.thisAcc, nil
+		}
 		sh, err := reg.SigHash()
 		if err != nil || !reg.Signature.Verify(*sh, reg.Key) || !reg.Key.Equal(h.clientKey.PublicKey()) {
 			h.regOK = false
@@ -315,6 +333,7 @@ func (h *rcH) record(m *Message) {
 	for k, c := range h.calls {
 		if c.St == "pending" && !h.seen[k] && rcMsgName(c.Kind) == e.T && (c.Key == e.Key || c.Kind == "FeeQuotes") {
 			h.seen[k] = true
+			h.seenAt[k] = time.Now()
 			break
 		}
 	}
@@ -323,7 +342,7 @@ func (h *rcH) record(m *Message) {
 
 func (h *rcH) startCall(k int, kind string, key int) {
 	ctx := logger.ContextWithNoLogger(context.Background())
-	res := make(chan [2]string, 1)
+	res := make(chan [3]string, 1)
 	h.results[k] = res
 	h.calls[k] = rcCall{St: "pending", Kind: kind, Key: key, RKey: -1}
 	h.seen[k] = false
@@ -381,7 +400,7 @@ func (h *rcH) startCall(k int, kind string, key int) {
 				r = "error:" + err.Error()
 			}
 		}
-		res <- [2]string{r, fmt.Sprint(rkey)}
+		res <- [3]string{r, fmt.Sprint(rkey), fmt.Sprint(time.Now().UnixNano())}
 	}()
 }
 
@@ -416,7 +435,7 @@ func (h *rcH) collect(k int, d time.Duration) {
 		if h.calls[i].St != "pending" {
 			continue
 		}
-		var r [2]string
+		var r [3]string
 		got := false
 		if i == k {
 			select {
@@ -435,6 +454,9 @@ func (h *rcH) collect(k int, d time.Duration) {
 			h.calls[i].St = "done"
 			h.calls[i].Res = r[0]
 			fmt.Sscan(r[1], &h.calls[i].RKey)
+			var ns int64
+			fmt.Sscan(r[2], &ns)
+			h.doneAt[i] = time.Unix(0, ns)
 		}
 	}
 }
@@ -511,6 +533,9 @@ func (h *rcH) step(a rcAct) (res string) {
 			return "next key: " + err.Error()
 		}
 		acc := &AcceptRegister{Key: sk.PublicKey(), PushDataCount: 1, UTXOCount: 2, MessageCount: 3}
+		if a.Kind == "replay" && h.lastAcc == nil {
+			return "no earlier accept to replay"
+		}
 		signHash := h.reg.Hash
 		signer := sk
 		switch a.Kind {
@@ -531,10 +556,14 @@ func (h *rcH) step(a rcAct) (res string) {
 		if a.Kind == "counts" {
 			acc.MessageCount = 99 // altered after signing
 		}
+		if a.Kind == "replay" {
+			acc = h.lastAcc // the genuine accept of an earlier connection, byte for byte
+		}
 		if err := h.send(acc); err != nil {
 			return "send: " + err.Error()
 		}
 		if a.Kind == "valid" {
+			h.thisAcc = acc
 			dl := time.Now().Add(rcWait)
 			for !h.c.IsAccepted(ctx) && time.Now().Before(dl) {
 				time.Sleep(2 * time.Millisecond)
@@ -614,7 +643,7 @@ func (h *rcH) step(a rcAct) (res string) {
 	case "Timeout":
 		for k := range h.calls {
 			if h.calls[k].St == "pending" {
-				h.collect(k, rcReqTimeout+rcWait)
+				h.collect(k, rcMsgTimeout+rcWait)
 			}
 		}
 	case "Notify":
@@ -769,6 +798,17 @@ func (h *rcH) project() rcSt {
 	s := rcSt{Ep: h.ep, Up: h.conn != nil, Acc: h.c.IsAccepted(ctx), Hs: h.hs, NextID: int(h.c.NextMessageID()),
 		Calls: append([]rcCall{}, h.calls...), Srv: append([]rcSrvMsg{}, h.srv...), Run: h.runRes, RegOK: h.regOK, Outputs: h.outputs}
 	s.Seen = append([]bool{}, h.seen...)
+	s.RegNew = h.regNew
+	for k, c := range h.calls {
+		l := -1
+		if c.St == "done" && c.Res == "timeout" && h.seen[k] && !h.seenAt[k].IsZero() {
+			l = int(h.doneAt[k].Sub(h.seenAt[k]) / time.Millisecond)
+		}
+		s.Lat = append(s.Lat, l)
+	}
+	if s.Lat == nil {
+		s.Lat = []int{}
+	}
 	d1, d2 := h.h.snapshot(), h.h2.snapshot()
 	s.SameH = len(d1) == len(d2)
 	for i := 0; s.SameH && i < len(d1); i++ {
